@@ -22,15 +22,32 @@ INFO = {
 
 PRELUDE = '''
 from vf.jslower import build as _jsb
-_mods, _report = _jsb.build()
-jsu = _jsb._load('js_csv_utils', _mods['js_csv_utils'])
-if 'js_rbql_csv' in _mods:
-    jsc = _jsb._load('js_rbql_csv', _mods['js_rbql_csv'])
+# the lowered modules were regenerated from /repo/rbql-js by the driver (selfcheck) just before the workers started
+jsu = _jsb._load('js_csv_utils', _jsb.path_of('js_csv_utils'))
+jsc = _jsb._load('js_rbql_csv', _jsb.path_of('js_rbql_csv'))
 
 
 def norm(r):
     """JS [fields, warning] / Python (fields, warning) -> comparable tuple."""
     return (list(r[0]), bool(r[1]))
+
+
+def node_check(*ns):
+    """Replay in REAL node: the lowered kernel only located the input; the disagreement must show between real node and real Python."""
+    kind = NODE_KIND
+    if kind is None:
+        return (True, 'no node replay defined for this obligation kind')
+    s = ''.join(chr(int(n)) for n in ns)
+    if kind == 'split':
+        r = _jsb.node_calls('/repo/rbql-js/csv_utils.js', [['smart_split', s, DLM, POLICY, PRESERVE]])[0]
+        py = csv_utils.smart_split(s, DLM, POLICY, PRESERVE)
+        return ('ok' not in r or norm(r['ok']) != norm(py), {'node': repr(r)[:300], 'python': repr(py)[:300]})
+    if kind in ('quote_field', 'rfc_quote_field', 'unquote_field'):
+        call = [kind, s] + ([] if kind == 'unquote_field' else [DLM])
+        r = _jsb.node_calls('/repo/rbql-js/csv_utils.js', [call])[0]
+        py = getattr(csv_utils, kind)(*call[1:])
+        return ('ok' not in r or r['ok'] != py, {'node': repr(r)[:300], 'python': repr(py)[:300]})
+    return (True, 'not replayed in node')
 '''
 
 BMP = lambda n: '(%s < 0xD800 or 0xE000 <= %s < 0x10000)' % (n, n)  # noqa
@@ -60,7 +77,7 @@ g = norm(jsu.smart_split(s, DLM, POLICY, PRESERVE))
 e = norm(csv_utils.smart_split(s, DLM, POLICY, PRESERVE))
 return (g, e)
 ''' % expr)
-    src = harness('DLM = %r\nPOLICY = %r\nPRESERVE = %r\n' % (dlm, policy, preserve), params, pre, body, extra_defs=PRELUDE)
+    src = harness('NODE_KIND = %r\nDLM = %r\nPOLICY = %r\nPRESERVE = %r\n' % ('split', dlm, policy, preserve), params, pre, body, extra_defs=PRELUDE)
     o = Obl('js_vs_py_split[%s,%r,preserve=%d,len=%d]' % (policy, dlm, preserve, L), src, timeout=timeout,
             meta={'function': 'csv_utils.js smart_split vs csv_utils.py smart_split', 'node': {'module': 'csv_utils.js', 'fn': 'smart_split', 'args': ['$s', dlm, policy, preserve]},
                   'bounds': 'every BMP line of length %d' % L})
@@ -79,7 +96,7 @@ return (jsu.unquote_field(s), csv_utils.unquote_field(s))
 s = %s
 return (jsu.%s(s, DLM), csv_utils.%s(s, DLM))
 ''' % (expr, fn, fn))
-    src = harness('DLM = %r\n' % dlm, params, pre, body, extra_defs=PRELUDE)
+    src = harness('NODE_KIND = %r\nDLM = %r\n' % (fn, dlm), params, pre, body, extra_defs=PRELUDE)
     return Obl('js_vs_py_%s[%r,len=%d]' % (fn, dlm, L), src, timeout=timeout, meta={'function': 'csv_utils.js %s vs csv_utils.py %s' % (fn, fn), 'bounds': 'every BMP string of length %d' % L})
 
 
@@ -107,7 +124,7 @@ else:
     back = norm(csv_utils.smart_split(line, DLM, POLICY, False))
 return (back, (fields, False))
 ''' % (', '.join(exprs), q, q))
-    src = harness('WRITER = %r\nDLM = %r\nPOLICY = %r\n' % (writer, dlm, policy), params, pre, body, extra_defs=PRELUDE)
+    src = harness('NODE_KIND = None\nWRITER = %r\nDLM = %r\nPOLICY = %r\n' % (writer, dlm, policy), params, pre, body, extra_defs=PRELUDE)
     return Obl('cross_roundtrip[%s-writes,%s,%r,lens=%s]' % (writer, policy, dlm, '+'.join(map(str, lens))), src, timeout=timeout,
                meta={'function': '%s quoting kernel -> %s splitting kernel' % (writer, 'js' if writer == 'py' else 'py'), 'bounds': 'every field list with lengths %s' % (lens,)})
 
@@ -132,7 +149,7 @@ if js_res[0] == 'ok':
     js_res = ('ok', js_res[1], sorted(js_res[2]))
 return (js_res, py)
 ''' % ', '.join(exprs))
-    imports = 'from vf import csvh\nDLM = %r\nPOLICY = %r\nCOMMENT = %r\nPY_ENC = %r\nJS_ENC = %r\n' % (dlm, policy, comment, enc, {'latin-1': 'binary'}.get(enc, enc))
+    imports = 'from vf import csvh\nNODE_KIND = None\nDLM = %r\nPOLICY = %r\nCOMMENT = %r\nPY_ENC = %r\nJS_ENC = %r\n' % (dlm, policy, comment, enc, {'latin-1': 'binary'}.get(enc, enc))
     src = harness(imports, params, pre, body, extra_defs=PRELUDE)
     return Obl('js_vs_py_reader[%s,%r,comment=%r,enc=%s,lens=%s]' % (policy, dlm, comment, enc, '+'.join(map(str, lens))), src, timeout=timeout,
                meta={'function': 'rbql_csv.js CSVRecordIterator (bulk path, lowered) vs rbql_csv.py CSVRecordIterator', 'bounds': 'every BMP file text of length %d' % sum(lens)})
@@ -163,7 +180,7 @@ def obligations(tier, seed):
     if build.HAVE_READER:
         rcfgs = [(',', 'quoted', None, None), (',', 'quoted_rfc', '#', None), ('\t', 'simple', None, 'utf-8'), (' ', 'whitespace', '#', None), (',', 'quoted', '#', 'latin-1'), ('', 'monocolumn', None, 'utf-8')]
         for ci, (dlm, policy, comment, enc) in enumerate(rcfgs):
-            for lens in ([(1,), (2,), (3,), (2, 2)] if quick else [(0,), (1,), (2,), (3,), (2, 2), (3, 2), (2, 1, 2)]):
+            for lens in ([(1,), (2,), (3,), (1, 2)] if quick else [(0,), (1,), (2,), (3,), (2, 2), (3, 2), (2, 1, 2)]):
                 if quick and sum(lens) == 4 and policy in ('quoted', 'quoted_rfc') and ci % 2:
                     continue
                 obs.append(_reader_obl(dlm, policy, comment, enc, lens, t))
